@@ -421,6 +421,9 @@ def gen_obj_case(rng, classes, field=None, max_src=3, first_cls=None, battery=No
                    "position": gen_path(rng, m0, lambda: sc3(rvec(rng, -0.6, 0.6), L))}
     return {"kind": "object-forms", "field": field or rng.choice(FIELDS), "scale": L, "sources": srcs, "sensors": sens,
             "obs_positions": obs_positions, "history": history,
+            # two position arrays with the pixel shape of the sensors (so that they can share a list with them)
+            "obs_like": [np.array([sc3(rvec(rng, -2, 2), L) for _ in range(int(np.prod(pix_lead or [1])))])
+                         .reshape((pix_lead or []) + [3]).tolist() for _ in range(2)],
             "pixel_agg": None, "in_out_form": rng.choice(["inside", "inside", "outside"]),
             "agg_form": rng.choice(AGGS)}
 
@@ -597,6 +600,44 @@ def check_object_forms(case):
                       call(lambda s, q, l=l: gx(s[l], q, squeeze=False, in_out=io)), True, sc))
     forms.append((f"sens.getX(in_out='{io}')", lambda s, q: meth(q[0], f)(*s, squeeze=False, in_out=io),
                   call(lambda s, q: gx(s, q[0], squeeze=False, in_out=io)), True, sc))
+    # mixed SOURCE lists in every order: a collection holding all sources before / between / after bare sources; every
+    # row against the same source (resp. the sum of the collection's sources) evaluated alone
+    S2 = lambda: build_sources(case)   # noqa: E731  (fresh objects: an object has one parent)
+    mixed_src = [
+        ("getX([Collection(sources), *bare sources], sensors)", lambda s, q: gx([C(*s)] + S2(), q, squeeze=False),
+         np.concatenate([tot, ref], axis=0)),
+        ("getX([Collection(sources), src_0, Collection(sources)], sensors)",
+         lambda s, q: gx([C(*s), S2()[0], C(*S2())], q, squeeze=False), np.concatenate([tot, ref[0:1], tot], axis=0)),
+        ("getX([src_0, Collection(sources), src_last], sensors)",
+         lambda s, q: gx([S2()[0], C(*s), S2()[-1]], q, squeeze=False),
+         np.concatenate([ref[0:1], tot, ref[-1:]], axis=0)),
+        ("sens.getX(Collection(sources), *bare sources)", lambda s, q: meth(q[0], f)(C(*s), *S2(), squeeze=False),
+         np.concatenate([tot, ref], axis=0)[:, :, 0:1]),
+    ]
+    for nm, fn_, exp_ in mixed_src:
+        forms.append((nm, (lambda s, q, fn_=fn_: pathfix(fn_(s, q))), exp_, False, sc * L))
+    # mixed OBSERVER lists in every order: position arrays before / between / after sensors and sensor collections
+    PL = case.get("obs_like")
+    if PL:
+        Q2 = lambda: build_sensors(case)   # noqa: E731
+        rp = [pathfix2(call(lambda s, q, P_=P_: gx(s, P_, squeeze=False)), M) for P_ in PL]
+        rp = [r.reshape(r.shape[:2] + (1,) + ref.shape[3:]) for r in rp]
+        mixed_obs = [
+            ("getX(sources, [positions, *sensors])", lambda s, q: gx(s, [PL[0]] + q, squeeze=False),
+             np.concatenate([rp[0], ref], axis=2)),
+            ("getX(sources, [sensor_0, positions, Collection(sensors), positions'])",
+             lambda s, q: gx(s, [q[0], PL[0], C(*Q2()), PL[1]], squeeze=False),
+             np.concatenate([ref[:, :, 0:1], rp[0], ref, rp[1]], axis=2)),
+            ("getX(sources, [positions, Collection(sensors), sensor_last])",
+             lambda s, q: gx(s, [PL[1], C(*q), Q2()[-1]], squeeze=False),
+             np.concatenate([rp[1], ref, ref[:, :, -1:]], axis=2)),
+            ("src.getX(positions, *sensors)", lambda s, q: meth(s[0], f)(PL[0], *q, squeeze=False),
+             np.concatenate([rp[0], ref], axis=2)[0:1]),
+            ("Collection(sources).getX(positions, *sensors)", lambda s, q: meth(C(*s), f)(PL[0], *q, squeeze=False),
+             np.sum(np.concatenate([rp[0], ref], axis=2), axis=0, keepdims=True)),
+        ]
+        for nm, fn_, exp_ in mixed_obs:
+            forms.append((nm, (lambda s, q, fn_=fn_: pathfix(fn_(s, q))), exp_, False, sc * L))
     # plain position arrays as observers: list / tuple / ndarray / a Sensor at the origin carrying them as pixels
     P = case.get("obs_positions")
     if P is not None:
@@ -713,6 +754,32 @@ def check_dataframe(case):
     r2 = quiet(gx, srcs[0], sens, output="dataframe", pixel_agg=agg)
     if not d2.equals(r2):
         return fail("dataframe-values", trig + ":src-method", "src.getX(output='dataframe') differs from top level")
+    # mixed lists: a collection before bare sources, a position array before the sensors -- the frame's values against
+    # the rows / columns evaluated separately
+    PL = case.get("obs_like")
+    if PL and not sumup:
+        srcs, sens = fresh(True)
+        part_s = quiet(gx, srcs, sens, squeeze=False, pixel_agg=agg)
+        srcs, sens = fresh(True)
+        part_p = quiet(gx, srcs, PL[0], squeeze=False, pixel_agg=agg)
+        if part_p.shape[1] != part_s.shape[1]:
+            part_p = np.take(part_p, [min(i, part_p.shape[1] - 1) for i in range(part_s.shape[1])], axis=1)
+        part_p = part_p.reshape(part_s.shape[:2] + (1,) + part_s.shape[3:])
+        cols = np.concatenate([part_p, part_s], axis=2)                       # observers [positions, *sensors]
+        srcs, sens = fresh(True)
+        if agg is None:
+            want = np.concatenate([np.sum(cols, axis=0, keepdims=True), cols], axis=0)   # sources [Collection, *bare]
+            s2, _ = fresh(True)
+            mixed_sources = [magpy.Collection(*srcs)] + s2
+        else:       # (an aggregate of a collection's summed field is not the sum of the aggregates)
+            want, mixed_sources = cols, srcs
+        dm = quiet(gx, mixed_sources, [PL[0]] + sens, output="dataframe", pixel_agg=agg)
+        vm = dm[[f + c for c in "xyz"]].to_numpy()
+        ok, w = same(vm, want.reshape(-1, 3), False, (scale_of(want) or 1.0) * len(case["sources"]))
+        if not ok:
+            return fail("dataframe-order", "dataframe:mixed-lists",
+                        "getX([Collection(sources), *sources], [positions, *sensors], output='dataframe') does not list "
+                        f"the rows / columns evaluated separately in list order: {w}")
     if len(case["sensors"]) >= 2:
         srcs, sens = fresh(True)
         dn = quiet(gx, srcs, magpy.Collection(magpy.Collection(sens[0]), *sens[1:]), output="dataframe", pixel_agg=agg,
